@@ -11,6 +11,7 @@ import DimodProofs.DqmEnergy
 import DimodProofs.IneqCoded
 import DimodProofs.DqmIneq
 import DimodProofs.CqmSlackFresh
+import DimodProofs.InverterOnto
 
 /-! # C16 — constraint-to-penalty conversions penalise exactly the violating assignments
 
@@ -416,6 +417,24 @@ theorem inverter_inverts (vars : List (Label × VKind)) (z : Label → Rat) :
           decode vars z v = lsum z (bits.map (fun b => (b.1, natRat b.2)))) :=
   ⟨invert_spec vars z, fun v h => decode_binary vars z v h, fun v h hz => decode_spin_dom vars z v h hz,
    fun v lb ub bits h hb => decode_integer vars z v lb ub h bits hb⟩
+
+/-- **inverter round trip, variable by variable**: every value of a CQM variable's domain is the inverter's image of
+    some setting of *that variable's own* BQM bits, all other bits unchanged — binary: `0/1`; spin: `±1`; integer
+    `0..ub` (through `binary_encoding`, whose bit labels are pairwise different).  With `inverter_inverts` (the inverter
+    is `decode`, and lands in the domain): BQM samples map back to CQM samples, onto. -/
+theorem inverter_round_trip (vars : List (Label × VKind)) (v : Label) (z : Label → Int) (hz : Bin01 z) :
+    (kindOf vars v = some .binary → ∀ b : Bool,
+        ∃ z', Bin01 z' ∧ (∀ l, l ≠ v → z' l = z l) ∧ decode vars (toRat z') v = (if b then 1 else 0))
+    ∧ (kindOf vars v = some .spin → ∀ b : Bool,
+        ∃ z', Bin01 z' ∧ (∀ l, l ≠ v → z' l = z l) ∧ decode vars (toRat z') v = (if b then 1 else -1))
+    ∧ (∀ lb ub bits, kindOf vars v = some (.integer lb ub) → binaryEncoding v ub.toNat = some bits → ∀ t : Nat, t ≤ ub.toNat →
+        ∃ z', Bin01 z' ∧ (∀ l, l ∉ bits.map (·.1) → z' l = z l) ∧ decode vars (toRat z') v = (((t : Nat) : Int) : Rat)) :=
+  ⟨fun h b => inverter_reaches_binary vars v h z hz b, fun h b => inverter_reaches_spin vars v h z hz b,
+   fun lb ub bits h hb t ht => inverter_reaches_integer vars v lb ub h bits hb z hz t ht⟩
+
+/-- the bit labels of `binary_encoding(v, ub)` are pairwise different -/
+theorem binary_encoding_labels_distinct (v : Label) (ub : Nat) (l : List (Label × Nat)) (h : binaryEncoding v ub = some l) :
+    (l.map (·.1)).Nodup := binaryEncoding_labels_nodup v ub l h
 
 /-! ## non-vacuity -/
 
